@@ -84,6 +84,15 @@ def _build_int(r):
     return {'make': make}
 
 
+def _build_int_ctor(r):
+    def make():
+        from space_packet_parser.packets import CCSDSPacket
+        p = CCSDSPacket(raw_data=bytes.fromhex(r['buf']))
+        p.raw_data.pos = r['off']
+        return {'size_in_bits': r['w'], 'encoding': r['enc'], 'byte_order': r['order'], 'packet': p}
+    return {'make': make}
+
+
 CONTRACTS = [
     Contract(
         target='xtce.encodings.NumericDataEncoding._twos_complement',
@@ -307,11 +316,12 @@ CONTRACTS += [
         returns='real',
         requires=[], ensures={'value': 'result == float_field(self, data)'},
         modifies=[],
-        native_only=('ASSUMED contract on the function VALUE stored in the field parse_func: __init__ stores the one of its two '
-                     'closures (_mil_parse_func, ieee_parse_func - both proved against float_field below) that matches the '
-                     'encoding, and the struct format string for (byte order, size). The constructor is not verified; the '
-                     'selection is checked by the bounded native run of NumericDataEncoding.parse_value over every '
-                     'encoding / size / byte order'),
+        native_only=('contract on the function VALUE stored in the field parse_func (a field has no body of its own to verify): '
+                     '__init__ stores the one of its two closures (_mil_parse_func, ieee_parse_func - both proved against '
+                     'float_field below) that matches the encoding, and the struct format string for (byte order, size) - '
+                     'PROVED by the lemma ghost.c04_float_ctor, which executes the real constructor. Left assumed: no other '
+                     'method reassigns parse_func / _struct_format after construction (checked by the bounded native run of '
+                     'NumericDataEncoding.parse_value over every encoding / size / byte order)'),
     ),
     Contract(
         target='xtce.encodings.FloatDataEncoding.__init__._mil_parse_func',
@@ -516,6 +526,24 @@ def _build_binary(r):
     return {'make': make, 'call_with': ['self', 'packet']}
 
 
+def _gen_binary_ctor(rng, tier, variant):
+    """fixed sizes -1..40 and 64, 65 bits at bit offsets 0..11, packets long enough, exactly long enough, too short"""
+    for n in list(range(-1, 41)) + [64, 65]:
+        for off in (0, 1, 4, 7, 8, 11):
+            for slack in (0, 1, -1):
+                nbytes = max(0, (off + max(n, 0) + 7) // 8 + slack)
+                yield {'n': n, 'off': off, 'buf': bytes(rng.getrandbits(8) for _ in range(nbytes)).hex()}
+
+
+def _build_binary_ctor(r):
+    def make():
+        from space_packet_parser.packets import CCSDSPacket
+        p = CCSDSPacket(raw_data=bytes.fromhex(r['buf']))
+        p.raw_data.pos = r['off']
+        return {'fixed_size_in_bits': r['n'], 'packet': p}
+    return {'make': make}
+
+
 TEXTS = ['', 'A', 'Hello', 'x y', 'é', 'Ωmega', 'AB\x00C']
 
 
@@ -646,6 +674,7 @@ def _size_contract(target, fixed, lookups, ref, adj, refval, fixed_truthy, consu
     }
     if consumer is not None:
         return {k: (v[0].replace('RESULT', consumer), v[1]) for k, v in clauses.items()}
+    NOFIX = f'is_none(self.{fixed}) or self.{fixed} == 0' if fixed_truthy else f'is_none(self.{fixed})'
     clauses = {k: (v[0].replace('RESULT', 'result'), v[1]) for k, v in clauses.items()}
     return Contract(
         target=target,
@@ -660,7 +689,8 @@ def _size_contract(target, fixed, lookups, ref, adj, refval, fixed_truthy, consu
         loops={('', 0): LoopSpec(invariants={
             'no_earlier_match': f'forall(lambda k: not dl_match(at(self.{lookups}, k), packet, None), 0, _i)'})},
         ensures=clauses,
-        may_raise={'ValueError': 'True', 'KeyError': 'True', 'ComparisonError': 'True'},
+        # a fixed size needs no other parameter and no lookup: nothing can go wrong in computing it
+        may_raise={'ValueError': NOFIX, 'KeyError': NOFIX, 'ComparisonError': NOFIX},
         modifies=[],
     )
 
@@ -743,8 +773,11 @@ CONTRACTS += [
         raises={'ValueError': ("outcome(ref_binary_parse(self, packet, packet.raw_data.pos, adj)) == 'ValueError'", ['__native__']),
                 'KeyError': ("outcome(ref_binary_parse(self, packet, packet.raw_data.pos, adj)) == 'KeyError'", ['__native__']),
                 'ComparisonError': ("outcome(ref_binary_parse(self, packet, packet.raw_data.pos, adj)) == 'ComparisonError'", ['__native__'])},
-        may_raise={'ValueError': ('True', ['__proof__']), 'KeyError': ('True', ['__proof__']),
-                   'ComparisonError': ('True', ['__proof__'])},
+        # C07 / C14 (PROVED): a fixed-size field is rejected only when the size is negative or the field does not fit
+        may_raise={'ValueError': ('is_none(self.fixed_size_in_bits) or self.fixed_size_in_bits < 0 or '
+                                  'packet.raw_data.pos + self.fixed_size_in_bits > 8 * len(packet.raw_data)', ['__proof__']),
+                   'KeyError': ('is_none(self.fixed_size_in_bits)', ['__proof__']),
+                   'ComparisonError': ('is_none(self.fixed_size_in_bits)', ['__proof__'])},
         ensures_raise={'ValueError': {'only_bad_length': (
             "implies(bound('nbits'), nbits < 0 or old(packet.raw_data.pos) + nbits > 8 * len(packet.raw_data))",
             ['__proof__'])}},
@@ -806,6 +839,31 @@ CONTRACTS += [
         reveal=['bits'],
         modifies=['packet.raw_data.pos'],
         native={'gen': _gen_string, 'build': _build_string},
+    ),
+    # ---- lemma: the integer constructor keeps (size, encoding, byte order) as declared, so that the proved contract of
+    # _get_raw_value - stated over the object's fields - is a statement about the DECLARED encoding
+    Contract(
+        target='ghost.c04_int_ctor',
+        props=['C04', 'C01'],
+        params={'size_in_bits': 'int', 'encoding': 'str', 'byte_order': 'str', 'packet': PKT},
+        returns='any',
+        requires=['size_in_bits >= 1', 'packet.raw_data.pos >= 0',
+                  'packet.raw_data.pos + size_in_bits <= 8 * len(packet.raw_data)',
+                  "(encoding == 'unsigned' or encoding == 'signed' or encoding == 'twosComplement' or "
+                  "encoding == 'twosCompliment')"],
+        ensures={}, modifies=['packet.raw_data.pos'],
+        native={'gen': _gen_int, 'build': _build_int_ctor},
+    ),
+    # ---- lemma: a fixed-size binary encoding built by the REAL constructor, decoded through the contract of parse_value
+    Contract(
+        target='ghost.c07_binary_ctor',
+        props=['C07', 'C01'],
+        params={'fixed_size_in_bits': 'int', 'packet': PKT_INTS},
+        returns='any',
+        requires=['packet.raw_data.pos >= 0'],
+        ensures={}, modifies=['packet.raw_data.pos'],
+        may_raise={'ValueError': 'fixed_size_in_bits < 0 or packet.raw_data.pos + fixed_size_in_bits > 8 * len(packet.raw_data)'},
+        native={'gen': _gen_binary_ctor, 'build': _build_binary_ctor},
     ),
     # ---- lemma (ghost client program): what the REAL constructor stores ------------------------------------------------
     # The program calls FloatDataEncoding(...) - the prover executes the real __init__ (and NumericDataEncoding.__init__
